@@ -158,6 +158,15 @@ def run(ctx):
             w.solve()
             pairs.add("SamePrefix", "prefix", sa, seq_of(w), {"objective": name, "n": n, "kind": "Solve, DoGlobalIteration(1), Solve"})
             runs.append(w)
+        if i < (4 if qk else 40):
+            # the trial sequence does not depend on the accuracy either: a looser / finer eps only moves the stop moment
+            for fac in (4.0, 0.25):
+                e2 = SolverRun(FnProblem(n, lo, up, f, name), r=r_, eps=min(0.9, eps * fac), limit=limit, m=m, tag=name + "/other-eps", full_snap=False, listener="none")
+                e2.solve()
+                s2 = seq_of(e2)
+                short, long_ = (s2, sa) if len(s2) <= len(sa) else (sa, s2)
+                pairs.add("SamePrefix", "prefix", short, long_, {"objective": name, "n": n, "kind": "same problem and r, eps x %g" % fac})
+                runs.append(e2)
         if i < (3 if qk else 16):
             spec = {"seed": 1, "n": n, "lo": lo, "up": up, "fseed": fseed, "r": r_, "eps": eps, "limit": limit, "m": m}
             env = dict(os.environ, PYTHONHASHSEED=str(1 + i), PYTHONWARNINGS="ignore", PYTHONDONTWRITEBYTECODE="1")
